@@ -126,6 +126,7 @@ type FuncDecl struct {
 	ArrSlots [][2]int // (array, length) parameter positions: the function depends on arr[0..len) only
 	Rec    bool
 	Axioms []*Term // assumed facts about this function (added to every query that mentions it)
+	Inst   func(args []*Term) *Term // assumed fact instantiated for every ground application
 	Deps   []string
 }
 
@@ -1522,6 +1523,25 @@ func ScriptOpt(asserts []*Term, getVals []*Term, opaque map[string]bool, unfoldO
 					visit(e)
 					all = append(all, e)
 				}
+			}
+		}
+	}
+	// instances of assumed facts about uninterpreted functions, one per ground application
+	{
+		var inst []*Term
+		for _, t := range order {
+			if t.Op != OApp || t.hasBound {
+				continue
+			}
+			if fd := TB.funcs[t.Name]; fd != nil && fd.Inst != nil {
+				inst = append(inst, fd.Inst(t.Args))
+			}
+		}
+		for _, e := range inst {
+			if !e.IsTrue() {
+				collectApps(e, addFn)
+				visit(e)
+				all = append(all, e)
 			}
 		}
 	}
